@@ -1,5 +1,6 @@
 import Proofs.Lemmas.ForkChoiceSim
 import Proofs.Lemmas.ForkChoicePass1
+import Proofs.Lemmas.ForkChoiceW0Bridge
 import Zrnt.ForkChoice.Spec
 import Zrnt.ForkChoice.Old
 /-!
@@ -10,8 +11,10 @@ Statements about the code-shaped model `Zrnt.ForkChoice` (`Zrnt/ForkChoice/Model
 GHOST oracle `Zrnt.ForkChoice.Spec`).
 
 What is proved here:
-* for ALL operation sequences that do not move the finalized checkpoint, malformed insertions included: the
-  structure invariant (`inv_structure`);
+* for ALL operation sequences, malformed insertions and pruning included: the structure invariant `WF0`
+  (`inv_structure`) and that no call panics, blocks or loops; for all sequences that do not move the finalized
+  checkpoint the stronger `WF` with consistent best links (`inv_structure_quiet`; pruning a malformed array can
+  leave a best child without best descendant, `W0.witMalformed_breaks_WF`);
 * for all sequences inside the domain of the refinement (`Admissible`: non-zero roots, well-placed empty-slot
   insertions, a root names one block, a pruned node does not come back while a vote names it) — finalizing
   updates and pruning INCLUDED: chain structure, votes and weights invariants (`inv_weights`: the weight of every
@@ -31,11 +34,23 @@ open Zrnt.ForkChoice
 
 def rt (n : Nat) : Root := n * 256 ^ 31
 
-/-- **Structure invariant, all operation sequences that leave the finalized checkpoint alone** (`Quiet`; malformed
-insertions, zero roots, votes for anything are allowed). The live instance has a free mutex and a well-formed array (`WF`: parents at smaller indices, index map and
-array agree, one delta slot per node, best links are children / proper descendants), and no call has panicked,
-blocked or looped. -/
-theorem inv_structure (ops : List Op) (st : MState) (h : MInv st) (hq : Quiet st ops) : MInv (run st ops).1 :=
+/-- **Structure invariant, ALL operation sequences** — arbitrary arguments: zero roots, empty-slot insertions under
+unknown roots or below the first slot of their root, votes for anything, any checkpoint update, any number of
+prunes with any sink. After every history the machine is not `dead` (no call panicked, blocked on the mutex or
+looped), the mutex is free and the array satisfies `WF0`: offset 0, index map and array agree (references are
+unique), parents have smaller indices, best links point into the array, every known root has its first node. -/
+theorem inv_structure (ops : List Op) : MInv0 (run .none ops).1 :=
+  inv_structure_all ops .none trivial
+
+/-- the same read on the answers: no answer of any history is `panic`, `blocked` or `dead` -/
+theorem no_panic (ops : List Op) : ∀ x ∈ (run .none ops).2, x.isFatal = false :=
+  run_total_all_none ops
+
+/-- **Structure invariant with consistent best links, all operation sequences that leave the finalized checkpoint
+alone** (`Quiet`; malformed insertions, zero roots, votes for anything are allowed). The live instance has a free
+mutex and a well-formed array (`WF`: `WF0`, and the best child is a child, the best descendant a proper descendant,
+one is set iff the other is), and no call has panicked, blocked or looped. -/
+theorem inv_structure_quiet (ops : List Op) (st : MState) (h : MInv st) (hq : Quiet st ops) : MInv (run st ops).1 :=
   Zrnt.ForkChoice.inv_structure_quiet ops st h hq
 
 /-- **Weights / votes / chain invariants, all admissible operation sequences** (`Admissible`: non-zero roots,
